@@ -160,6 +160,80 @@ def _has_return_list(stmts):
     return any(_has_return(s) for s in stmts)
 
 
+class _SubstConst(ast.NodeTransformer):
+    def __init__(self, consts):
+        self.consts = consts
+
+    def visit_Name(self, node):
+        if isinstance(node.ctx, ast.Load) and node.id in self.consts:
+            return ast.copy_location(ast.Constant(value=self.consts[node.id].value), node)
+        return node
+
+
+def _const_truth(e):
+    """True / False when the test is decided by constants, else None."""
+    if isinstance(e, ast.Constant):
+        return bool(e.value)
+    if isinstance(e, ast.UnaryOp) and isinstance(e.op, ast.Not):
+        v = _const_truth(e.operand)
+        return None if v is None else not v
+    if isinstance(e, ast.Compare) and len(e.ops) == 1 and isinstance(e.left, ast.Constant) and isinstance(e.comparators[0], ast.Constant):
+        l, r, op = e.left.value, e.comparators[0].value, e.ops[0]
+        if isinstance(op, (ast.Is, ast.IsNot)) and (l is None or r is None or isinstance(l, bool) or isinstance(r, bool)):
+            return (l is r) == isinstance(op, ast.Is)
+        if isinstance(op, (ast.Eq, ast.NotEq)):
+            return (l == r) == isinstance(op, ast.Eq)
+    if isinstance(e, ast.BoolOp):
+        vals = [_const_truth(v) for v in e.values]
+        if isinstance(e.op, ast.And):
+            if any(v is False for v in vals):
+                return False
+            if all(v is True for v in vals):
+                return True
+        else:
+            if any(v is True for v in vals):
+                return True
+            if all(v is False for v in vals):
+                return False
+    return None
+
+
+class _FoldExpr(ast.NodeTransformer):
+    def visit_IfExp(self, node):
+        self.generic_visit(node)
+        v = _const_truth(node.test)
+        if v is None:
+            return node
+        return node.body if v else node.orelse
+
+
+def _fold(stmts):
+    """Statements with the tests decided by constants folded away (`if True: A else: B` -> A)."""
+    out = []
+    for st in stmts:
+        if isinstance(st, (ast.FunctionDef, ast.AsyncFunctionDef, ast.ClassDef)):
+            out.append(st)
+            continue
+        st = _FoldExpr().visit(st)
+        for fld in ("body", "orelse", "finalbody"):
+            sub = getattr(st, fld, None)
+            if isinstance(sub, list) and sub and isinstance(sub[0], ast.stmt):
+                setattr(st, fld, _fold(sub))
+        for h in getattr(st, "handlers", []) or []:
+            h.body = _fold(h.body) or [ast.copy_location(ast.Pass(), h)]
+        if isinstance(st, ast.If):
+            v = _const_truth(st.test)
+            if v is not None:
+                out += st.body if v else st.orelse
+                continue
+            if not st.body:
+                st.body = [ast.copy_location(ast.Pass(), st)]
+        elif isinstance(st, (ast.For, ast.While, ast.With, ast.Try)) and not st.body:
+            st.body = [ast.copy_location(ast.Pass(), st)]
+        out.append(st)
+    return out
+
+
 class _Rename(ast.NodeTransformer):
     def __init__(self, mapping):
         self.mapping = mapping
@@ -303,6 +377,7 @@ class Flattener:
         stored = _stored_names(gnode)
         inner_args = {x.arg for n in ast.walk(gnode) if isinstance(n, ast.Lambda) for x in n.args.args}
         mapping = {}
+        consts = {}
         pre = []
         is_closure = g.parent is not None
         for p in params:
@@ -311,6 +386,8 @@ class Flattener:
                 raise CannotInline("lambda parameter shadows %s" % p)
             if isinstance(x, ast.Name) and p not in stored and x.id not in stored:
                 mapping[p] = x.id
+            elif isinstance(x, ast.Constant) and (x.value is None or isinstance(x.value, (bool, int, float, str))) and p not in stored:
+                consts[p] = x  # a constant argument (a flag) is substituted; tests on it are folded below
             else:
                 new = p if (p not in caller_names and not is_closure) else p + sfx
                 mapping[p] = new
@@ -322,6 +399,10 @@ class Flattener:
                 mapping[name] = name + sfx
         retvar = ("inl_ret" + sfx) if want_value else None
         body = _cp(body)
+        if consts:
+            holder0 = ast.Module(body=body, type_ignores=[])
+            _SubstConst(consts).visit(holder0)
+            body = _fold(holder0.body)
         new_body = _xform(body, _set_ret(retvar, None, call) if want_value else [], retvar)
         holder = ast.Module(body=new_body, type_ignores=[])
         _Rename(mapping).visit(holder)
@@ -389,6 +470,10 @@ class Flattener:
             if isinstance(st, (ast.FunctionDef, ast.AsyncFunctionDef, ast.ClassDef)):
                 out.append(st)
                 continue
+            collected = self._collect_generator(fn, st, caller_names)
+            if collected is not None:
+                out += collected
+                continue
             fused = self._fuse_generator(fn, st, caller_names, out)
             if fused is not None:
                 out += fused
@@ -417,6 +502,69 @@ class Flattener:
             if st is not None:
                 out.append(st)
         return out
+
+    def _collect_generator(self, fn, st, caller_names):
+        """`x = list(gen(args))` with gen a new generator helper  ->  `x = []` + the helper's body with every
+        `yield E` replaced by `x.append(E)` (through the loop fusion).  None when not applicable."""
+        if not (isinstance(st, ast.Assign) and len(st.targets) == 1 and isinstance(st.targets[0], ast.Name) and isinstance(st.value, ast.Call)
+                and isinstance(st.value.func, ast.Name) and st.value.func.id == "list" and len(st.value.args) == 1 and not st.value.keywords
+                and isinstance(st.value.args[0], ast.Call)):
+            return None
+        inner = st.value.args[0]
+        g, _recv = self._resolve(fn, inner)
+        if g is None or g.qual == fn.qual or not any(isinstance(y, (ast.Yield, ast.YieldFrom)) for y in ast.walk(g.node)):
+            return None
+        name = st.targets[0].id
+        if any(isinstance(y, ast.Name) and y.id == name for y in ast.walk(inner)):
+            return None
+        n = 0
+        while "gen_item__c%d" % n in caller_names:
+            n += 1
+        item = "gen_item__c%d" % n
+        caller_names.add(item)
+        init = ast.copy_location(ast.Assign(targets=[ast.copy_location(ast.Name(id=name, ctx=ast.Store()), st)], value=ast.copy_location(ast.List(elts=[], ctx=ast.Load()), st)), st)
+        app = ast.copy_location(ast.Expr(value=ast.copy_location(ast.Call(func=ast.copy_location(ast.Attribute(value=ast.copy_location(ast.Name(id=name, ctx=ast.Load()), st), attr="append", ctx=ast.Load()), st),
+                                                                               args=[ast.copy_location(ast.Name(id=item, ctx=ast.Load()), st)], keywords=[]), st)), st)
+        loop = ast.copy_location(ast.For(target=ast.copy_location(ast.Name(id=item, ctx=ast.Store()), st), iter=inner, body=[app], orelse=[], type_comment=None), st)
+        fused = self._fuse_generator(fn, loop, caller_names, [])
+        if fused is None:
+            return None
+        return [init] + fused
+
+    def _fuse_late(self, fn, fnode):
+        """After inlining: `g = gen(args)` ... `for T in g: BODY` (g bound once, read once - typically the
+        argument of an inlined consumer) is fused like `for T in gen(args): BODY`; the generator runs lazily
+        during the loop, so the statements in between do not matter."""
+        counts = {}
+        for x in ast.walk(fnode):
+            if isinstance(x, ast.Name):
+                counts[x.id] = counts.get(x.id, 0) + 1
+        names = _all_names(fnode)
+
+        def walk(lst):
+            i = 0
+            while i < len(lst):
+                st = lst[i]
+                for fld in ("body", "orelse", "finalbody"):
+                    sub = getattr(st, fld, None)
+                    if isinstance(sub, list) and sub and isinstance(sub[0], ast.stmt) and not isinstance(st, (ast.FunctionDef, ast.AsyncFunctionDef, ast.ClassDef)):
+                        walk(sub)
+                for h in getattr(st, "handlers", []) or []:
+                    walk(h.body)
+                if isinstance(st, ast.For) and not st.orelse and isinstance(st.iter, ast.Name) and counts.get(st.iter.id) == 2:
+                    for j in range(i - 1, -1, -1):
+                        pv = lst[j]
+                        if isinstance(pv, ast.Assign) and len(pv.targets) == 1 and isinstance(pv.targets[0], ast.Name) and pv.targets[0].id == st.iter.id and isinstance(pv.value, ast.Call):
+                            synth = ast.copy_location(ast.For(target=st.target, iter=pv.value, body=st.body, orelse=[], type_comment=None), st)
+                            fused = self._fuse_generator(fn, synth, names, [])
+                            if fused is not None:
+                                lst[i:i + 1] = fused
+                                del lst[j]
+                                i = i - 2 + len(fused)
+                            break
+                i += 1
+
+        walk(fnode.body)
 
     def _fuse_generator(self, fn, st, caller_names, before):
         """`for T in gen(args): BODY` / `yield from gen(args)` with gen a new generator helper -> the helper's
@@ -518,6 +666,7 @@ class Flattener:
         try:
             new = _clone(node)
             new.body = self._flatten_body(fn, new.body, _all_names(node))
+            self._fuse_late(fn, new)
             _scalarize_results(new)
             ast.fix_missing_locations(new)
         finally:
